@@ -167,7 +167,7 @@ def clean_vo():
             pass
 
 
-def run(ctx):
+def run(ctx, extra_cases=()):
     t0 = time.time()
     if not ctx.quick:
         clean_vo()
@@ -185,8 +185,8 @@ def run(ctx):
     rng = random.Random(ctx.subseed("C08/cases"))
     if ctx.quick:
         sizes = [(1, 2), (2, 4), (3, 5), (4, 5), (5, 4), (6, 4), (7, 1), (8, 1)]
-        cases = gen.gen_cases(rng, 2600, sizes)
-        cases += gen.gen_cases(rng, 32, [(10, 1), (12, 1)])
+        cases = gen.gen_cases(rng, 2000, sizes)
+        cases += gen.gen_cases(rng, 24, [(10, 1), (12, 1)])
     else:
         cases = []
         for k in range(5):
@@ -195,7 +195,7 @@ def run(ctx):
             cases += gen.gen_cases(r2, 260, [(10, 1), (11, 1), (12, 1), (13, 1), (14, 1)])
             cases += gen.gen_cases(r2, 40, [(15, 1), (16, 1), (17, 1), (18, 1), (19, 1), (20, 1)])
             cases += gen.gen_cases(r2, 13, [(21, 1), (22, 1), (23, 1), (24, 1)])
-    cases = corpus_cases() + gen.fixed_cases() + cases
+    cases = list(extra_cases) + corpus_cases() + gen.fixed_cases() + cases
     ctx.log("generated %d cases" % len(cases))
 
     # ---- implementation runs (current $VERIF_REPO tree) ----
@@ -322,20 +322,19 @@ def run(ctx):
         "example": cases[nf[0]].to_json() if nf else
         {"n": 3, "A": [1e-300, 0, 0, 0, 1, 0, 1e300, 1, 1], "routine": "a_real_llt", "observed": "rc=0, l[2][1]=NaN, l[2][2]=NaN"}}
     ctx.cov["sanitizer"] = "ASan+UBSan build ran the same cases: %s" % ("abort at case %s" % san_case if san_case is not None else "clean, identical output")
-    for c in cases[len(corpus_cases()):][:3] + cases[-2:]:
+    for c in cases[len(extra_cases) + len(corpus_cases()):][:3] + cases[-2:]:
         ctx.sample({"tag": c.tag, "n": c.n, "mask": c.mask, "A": [c08lib.b2d(u) for u in c.A][:16]})
     ctx.log("total %.1fs" % (time.time() - t0))
 
 
 def replay(ctx, path):
-    """Re-run one replay file: prints the C output and the oracle's verdict."""
+    """Replay: the case of the replay file is put in front of the corpus and the whole check is run again on
+    the current $VERIF_REPO tree (so evidence stays complete); the case is a violation again iff the C code
+    still fails the oracle on it."""
     o = json.loads(Path(path).read_text())
-    c = c08lib.Case.from_json(o["replay"]["case"])
-    cnum, _ = build_c(ctx)
-    rc, lines, logs, tail = c08lib.run_c(vlib, cnum, [c])
-    f, s = oracle.check(c, lines[0])
-    print("\n".join(lines[0]))
-    print("oracle:", f or "no failure")
-    if f:
-        ctx.report(o.get("key", "replay"), f[0][1], {"case": c.to_json()}, found_input=True)
-    return ctx.finish()
+    rep = o.get("replay", {})
+    extra = []
+    for k in ("case", "original_case"):
+        if isinstance(rep.get(k), dict) and "A_hex" in rep[k]:
+            extra.append(c08lib.Case.from_json(rep[k]))
+    run(ctx, extra_cases=extra)
